@@ -117,7 +117,7 @@ def stack(arrays, axis=0):
 
 
 def unstack(stack, axis=0):
-    element_count = tree_leaves(stack)[0].shape[0]
+    element_count = tree_leaves(stack)[0].shape[axis]
     split = partial(jnp.split, indices_or_sections=element_count, axis=axis)
     unstacked = tree_transpose(
         tree_structure(stack),
